@@ -823,8 +823,12 @@ impl<T: Transport, Env: UtpEnvironment> VirtualSocket<T, Env> {
                 debug!(payload_size, ?self.last_sent_seq_nr, ?rewind_to, "MTU probe expired");
                 // In case the retransmit timer expired, this is not "real" expiry, but expiry due to us sending
                 // too large segment. So ignore the retransmit timer, pretend it didn't fire.
-                self.timers.retransmit.turn_off("MTU probe is not real RTO");
-                self.rto_retransmissions = 0;
+                // Unless older segments are still unacknowledged: for them the timeout is real and the
+                // RTO path in send_tx_queue() must still see it.
+                if self.user_tx_segments.is_empty() {
+                    self.timers.retransmit.turn_off("MTU probe is not real RTO");
+                    self.rto_retransmissions = 0;
+                }
 
                 // TODO: do we need to IF here? Maybe min instead?
                 if self.last_sent_seq_nr > rewind_to {
